@@ -146,6 +146,27 @@ fn serde_values(case: &Value) -> Value {
             if problems.len() < 60 { problems.push(json!({"kind":"neutral","crate":"gds21","fmt": fmt, "via":"string", "value": format!("mag {a:?} angle {b:?}"), "r": r})); }
         }
     }}
+    // ---- large files: hundreds of structures with 2-, 3- and 4-byte characters in every name, so that multi-byte characters
+    //      sit at every alignment relative to any buffer size a reader might use; string and file interfaces, both formats
+    if geti(case, "id") == 0 {
+        let mut lib = GdsLibrary::new("big µ");
+        lib.set_all_dates(GdsDateTime { year: 100, month: 1, day: 1, hour: 0, minute: 0, second: 0 });
+        for i in 0..600 {
+            let mut st = GdsStruct::new(format!("{}配線層µm—Ωλ😀_{i}", "x".repeat(i % 7)));
+            st.dates = lib.dates.clone();
+            st.elems.push(GdsTextElem { string: format!("é中😀{}", i), layer: 1, texttype: 0, xy: GdsPoint::new(i as i32, 0), ..Default::default() }.into());
+            lib.structs.push(st);
+        }
+        let mut lef = lef21::LefLibrary::new();
+        for i in 0..400 { let mut m = lef21::LefMacro::new(format!("{}セル_µ😀_{i}", "y".repeat(i % 5))); m.site = Some("コア".into()); lef.macros.push(m); }
+        for fmt in ["json", "yaml"] { for via in ["string", "file"] {
+            nstrings += 2;
+            let r = match guarded(|| rt_gds(&lib, fmt, via, tmp)) { Ok(v) => v, Err(p) => json!({"outcome":"panic","msg":p}) };
+            if !(r["outcome"] == "ok" && r["eq"] == true && r["proj_eq"] == true) { problems.push(json!({"kind":"string","crate":"gds21","value": "large library, multi-byte names", "fmt": fmt, "via": via, "r": trunc(&r)})); }
+            let r = match guarded(|| rt_lef(&lef, fmt, via, tmp)) { Ok(v) => v, Err(p) => json!({"outcome":"panic","msg":p}) };
+            if !(r["outcome"] == "ok" && r["eq"] == true && r["proj_eq"] == true) { problems.push(json!({"kind":"string","crate":"lef21","value": "large library, multi-byte names", "fmt": fmt, "via": via, "r": trunc(&r)})); }
+        }}
+    }
     // ---- LEF decimals in many spellings keep value AND are equal after the trip
     json!({"id": id(case), "outcome":"ok", "strings_checked": nstrings, "doubles_checked": ndoubles, "libs_with_double_loss": per_fmt, "problems": problems})
 }
